@@ -45,6 +45,15 @@ CHECKS = {
  "C07": ("property-based testing (rapid): metamorphic repeated-execution oracle on the thriftgo binary (same input, k fresh processes, varied GOMAXPROCS / output directory / dirty directory) over generated programs and configurations, incl. bytes sent to a recording plugin",
          "Generated programs biased towards what can vary (annotation maps, map constants, many includes/exceptions) are compiled k times in fresh processes; the set of output files with their hashes and the plugin request bytes must be identical across runs.",
          "Trusted: sha256, the recording plugin. Map-iteration nondeterminism is detected probabilistically per program (see assumptions)."),
+ "C06": ("property-based testing (rapid): generated constants/defaults in every spelling evaluated by an independent model evaluator vs the values the compiled generated package exposes (reflective driver)",
+         "Generated programs are compiled and linked with the reflective driver; every IDL constant must exist in its Go package with the value of its initializer evaluated by the IDL's rules; NewX()/InitDefault()/getters/IsSet must show the declared defaults.",
+         "Trusted: the model evaluator (ref.Eval, a few dozen lines), Go's reading of string literals for the documented literal rule."),
+ "C10": ("property-based testing (rapid): differential fast codec vs standard generated codec vs independent reference codec, exactness of BLength, exhaustive truncation sweep and type-byte corruption per value",
+         "Programs generated with -g fastgo are compiled into the reflective driver; FastAppend/FastWrite/BLength/FastRead are compared with the reference codec and with the standard generated Read/Write on values, perturbed encodings, every truncation point and type-byte corruptions; a panic is a violation.",
+         "Trusted: the reference codec; the standard generated codec as decided by C02."),
+ "C16": ("property-based testing (rapid): model-computed reachability closure as reference for the trimmer (API and binary), plus idempotence, front-end acceptance of the dumped result and compile sampling",
+         "Generated programs and trimmer arguments; the kept/removed sets must equal the closure computed from the generating model, the result must pass semantic analysis and (sampled) compile, trimming again must change nothing, kept struct-likes keep their fields, -m keeps only matching methods and what they need.",
+         "Trusted: the closure (written from the property statement), the front end (C03/C05), the dumper (C17)."),
 }
 NOT_YET = "check not built yet (work in progress; the technique applies, see DESIGN.md)"
 
